@@ -1,5 +1,161 @@
+import Anything.Lemmas.Scale
 import Anything.Model.Eval
-import Anything.Spec.Quantity
+/-!
+# C02 — `+`, `-` and `to` are allowed exactly between commensurable units
+
+`Commensurable a b` is the specification's notion (`Spec.SI.dims` of the two unit
+expressions agree). The theorems quantify over **all** compounds — any list of
+units from the extracted table with any integer powers and prefixes, however
+spelled — and all rational magnitudes.
+-/
+
 namespace Anything.Props.C02
-theorem C02_placeholder : True := trivial
+open Anything Anything.Eval Anything.Spec
+
+/-- Both sides reduce to the same powers of the base dimensions. -/
+def Commensurable (a b : Compound) : Prop := SI.dims (semOf a) = SI.dims (semOf b)
+
+instance (a b : Compound) : Decidable (Commensurable a b) := by unfold Commensurable; exact inferInstance
+
+/-- **C02 (the comparison inside `Compound::factor`).** For non-empty compounds of
+proportional units the conversion is accepted exactly when both sides have the same
+base dimensions; never an error. -/
+theorem C02_factor_iff (a b : Compound) (ha : a ≠ []) (hb : b ≠ []) (pa : Proportional a)
+    (pb : Proportional b) (v : Rat) :
+    (∃ w, Compound.factor a b v = .ok (some w)) ↔ Commensurable a b := by
+  rw [factor_prop a b ha hb pa pb v]
+  unfold Commensurable
+  split <;> simp_all
+
+theorem C02_factor_refused (a b : Compound) (ha : a ≠ []) (hb : b ≠ []) (pa : Proportional a)
+    (pb : Proportional b) (v : Rat) (h : ¬ Commensurable a b) :
+    Compound.factor a b v = .ok none := by
+  rw [factor_prop a b ha hb pa pb v]
+  unfold Commensurable at h
+  simp [h]
+
+/-- **C02 (`+` and `-`, accepted case).** Commensurable quantities are added in the
+left operand's unit. -/
+theorem C02_add_ok (s e : Nat) (x y : Numeric) (sub : Bool) (d : List Desc)
+    (hx : x.unit ≠ []) (hy : y.unit ≠ []) (px : Proportional x.unit) (py : Proportional y.unit)
+    (h : Commensurable x.unit y.unit) :
+    ∃ v, Eval.add s e x y sub d = (.ok { value := v, unit := x.unit }, d) := by
+  unfold Eval.add
+  rw [factor_prop x.unit y.unit hx hy px py]
+  unfold Commensurable at h
+  have ex : x.unit.isEmpty = false := by cases hu : x.unit <;> simp_all
+  simp only [h, ↓reduceIte, ex, Bool.false_eq_true, pure]
+  exact ⟨_, rfl⟩
+
+/-- **C02 (`+` and `-`, rejected case).** Incommensurable quantities yield an
+error, never a number — whatever the magnitudes. -/
+theorem C02_add_error (s e : Nat) (x y : Numeric) (sub : Bool) (d : List Desc)
+    (hx : x.unit ≠ []) (hy : y.unit ≠ []) (px : Proportional x.unit) (py : Proportional y.unit)
+    (h : ¬ Commensurable x.unit y.unit) :
+    Eval.add s e x y sub d = (.error (.err .illegalOperation s e), d) := by
+  unfold Eval.add
+  rw [C02_factor_refused x.unit y.unit hx hy px py y.value h]
+  rfl
+
+/-- **C02 (`+`/`-` succeed iff commensurable).** -/
+theorem C02_add_iff (s e : Nat) (x y : Numeric) (sub : Bool) (d : List Desc)
+    (hx : x.unit ≠ []) (hy : y.unit ≠ []) (px : Proportional x.unit) (py : Proportional y.unit) :
+    (∃ r, Eval.add s e x y sub d = (.ok r, d)) ↔ Commensurable x.unit y.unit := by
+  constructor
+  · intro ⟨r, hr⟩
+    by_contra hc
+    rw [C02_add_error s e x y sub d hx hy px py hc] at hr
+    simp at hr
+  · intro h
+    obtain ⟨v, hv⟩ := C02_add_ok s e x y sub d hx hy px py h
+    exact ⟨_, hv⟩
+
+/-- The `to` step of an operation chain, given the evaluated target unit and the
+evaluated left-hand side (`opFold`, `OP_CAST` branch). -/
+theorem opFold_cast (cfg : Cfg) (fuel : Nat) (node op rhs : At) (rest : List At) (base : Delayed)
+    (d d1 d2 : List Desc) (target : Compound) (lhs : Numeric)
+    (hop : op.t.kind = .OP_CAST)
+    (ht : Eval.unit rhs.kids d = (.ok target, d1))
+    (hl : force cfg fuel base d1 = (.ok lhs, d2)) :
+    opFold cfg (fuel + 1) node base (op :: rhs :: rest) d =
+      match Compound.factor target lhs.unit lhs.value with
+      | .ok (some v) => opFold cfg fuel node (.num { value := v, unit := target }) rest d2
+      | .ok none => (.error (.err .illegalCast node.off node.stop), d2)
+      | .error _ => (.error (.err .conversionNotPossible node.off node.stop), d2) := by
+  rw [opFold]
+  simp only [hop, bind, ht, hl]
+  cases Compound.factor target lhs.unit lhs.value with
+  | error e => rfl
+  | ok o => cases o <;> rfl
+
+/-- **C02 (`to`, rejected case).** A cast between incommensurable units is an error
+(`illegalCast`), never a number. -/
+theorem C02_cast_error (cfg : Cfg) (fuel : Nat) (node op rhs : At) (rest : List At) (base : Delayed)
+    (d d1 d2 : List Desc) (target : Compound) (lhs : Numeric)
+    (hop : op.t.kind = .OP_CAST)
+    (ht : Eval.unit rhs.kids d = (.ok target, d1))
+    (hl : force cfg fuel base d1 = (.ok lhs, d2))
+    (h1 : target ≠ []) (h2 : lhs.unit ≠ []) (p1 : Proportional target) (p2 : Proportional lhs.unit)
+    (h : ¬ Commensurable target lhs.unit) :
+    opFold cfg (fuel + 1) node base (op :: rhs :: rest) d =
+      (.error (.err .illegalCast node.off node.stop), d2) := by
+  rw [opFold_cast cfg fuel node op rhs rest base d d1 d2 target lhs hop ht hl,
+    C02_factor_refused target lhs.unit h1 h2 p1 p2 lhs.value h]
+
+/-- **C02 (`to`, accepted case).** A cast between commensurable units continues the
+chain with a value in the target unit. -/
+theorem C02_cast_ok (cfg : Cfg) (fuel : Nat) (node op rhs : At) (rest : List At) (base : Delayed)
+    (d d1 d2 : List Desc) (target : Compound) (lhs : Numeric)
+    (hop : op.t.kind = .OP_CAST)
+    (ht : Eval.unit rhs.kids d = (.ok target, d1))
+    (hl : force cfg fuel base d1 = (.ok lhs, d2))
+    (h1 : target ≠ []) (h2 : lhs.unit ≠ []) (p1 : Proportional target) (p2 : Proportional lhs.unit)
+    (h : Commensurable target lhs.unit) :
+    opFold cfg (fuel + 1) node base (op :: rhs :: rest) d =
+      opFold cfg fuel node
+        (.num { value := lhs.value * scaleC lhs.unit / scaleC target, unit := target }) rest d2 := by
+  rw [opFold_cast cfg fuel node op rhs rest base d d1 d2 target lhs hop ht hl,
+    factor_prop target lhs.unit h1 h2 p1 p2]
+  unfold Commensurable at h
+  simp [h]
+
+/-- **C02 (spelling does not matter).** Acceptance depends on the two sides only
+through their base dimensions: respelling either side (derived units, prefixes,
+products, quotients, cancelling factors) changes nothing. -/
+theorem C02_spelling_invariant (a a' b b' : Compound) (v v' : Rat)
+    (ha : a ≠ []) (hb : b ≠ []) (ha' : a' ≠ []) (hb' : b' ≠ [])
+    (pa : Proportional a) (pb : Proportional b) (pa' : Proportional a') (pb' : Proportional b')
+    (h1 : SI.dims (semOf a) = SI.dims (semOf a')) (h2 : SI.dims (semOf b) = SI.dims (semOf b')) :
+    (∃ w, Compound.factor a b v = .ok (some w)) ↔ (∃ w, Compound.factor a' b' v' = .ok (some w)) := by
+  rw [C02_factor_iff a b ha hb pa pb, C02_factor_iff a' b' ha' hb' pa' pb']
+  unfold Commensurable
+  rw [h1, h2]
+
+/-- **C02 (plain number on the left).** It adopts the quantity's unit. -/
+theorem C02_plain_left (s e : Nat) (x : Rat) (y : Numeric) (sub : Bool) (d : List Desc) :
+    Eval.add s e { value := x, unit := [] } y sub d =
+      (.ok { value := if sub then x - y.value else x + y.value, unit := y.unit }, d) := by
+  simp [Eval.add, Compound.factor, pure]
+
+/-- **C02 (plain number on the right).** Same unit, whichever the order. -/
+theorem C02_plain_right (s e : Nat) (x : Rat) (y : Numeric) (sub : Bool) (d : List Desc) :
+    Eval.add s e y { value := x, unit := [] } sub d =
+      (.ok { value := if sub then y.value - x else y.value + x, unit := y.unit }, d) := by
+  cases hu : y.unit with
+  | nil => simp [Eval.add, Compound.factor, pure, hu]
+  | cons a r => simp [Eval.add, Compound.factor, pure, hu]
+
+/-! ### Non-vacuity: the cancelling spellings the property names -/
+
+def J : UnitKey := .derived 3766052723
+def N : UnitKey := .derived 353022001
+def m : UnitKey := .base .Meter
+def s : UnitKey := .base .Second
+def one : State := { power := 1, pfx := 0 }
+def inv : State := { power := -1, pfx := 0 }
+
+/-- `J/N` and `m` are commensurable, `J/N` and `s` are not. -/
+example : Commensurable [(N, inv), (J, one)] [(m, one)] := by decide +kernel
+example : ¬ Commensurable [(N, inv), (J, one)] [(s, one)] := by decide +kernel
+
 end Anything.Props.C02
